@@ -281,7 +281,7 @@ def plan(tier: str, seed: int) -> list[dict[str, Any]]:
     rs_space = [(list(shp), list(new), order)
                 for shp in [(6,), (2, 3), (2, 3, 2), (0, 3), (), (1,), (1, 1)]
                 for ln in range(0, 4) for new in itertools.product((-1, 0, 1, 2, 3, 6), repeat=ln)
-                for order in ("C", "F")]
+                for order in ("C", "F", "c", "f")]
     for shp_, new_, order in (rs_space if len(rs_space) <= cap2 else rng.sample(rs_space, cap2 * 2)):
         cases.append({"k": "reshape", "shape": shp_, "new": new_, "order": order})
     # random programs: every intermediate node
